@@ -156,6 +156,7 @@ func (c19) Plan(tier string, seed int64) []mon.Workload {
 		{Name: "paramdefs", N: seqCount(len(c19Names)*len(c19Kinds), mp), Exhaustive: true},
 		{Name: "calls", N: int64(len(c19ValidLists(mp))) * seqCount(len(c19ArgNames), ma), Exhaustive: true},
 		{Name: "typed-getters", N: int64(len(c19Getters) * len(c19Lits) * 3), Exhaustive: true},
+		{Name: "nested-calls", N: map[string]int64{"quick": 1500, "thorough": 100000}[tier]},
 	}
 }
 
@@ -344,7 +345,7 @@ func (c19) Describe(c *mon.Ctx, workload string, i int64) any {
 	if workload == "paramdefs" {
 		return map[string]any{"signature": sigString(c19List(i, mp))}
 	}
-	if workload == "typed-getters" {
+	if workload == "typed-getters" || workload == "nested-calls" {
 		return map[string]any{"index": i}
 	}
 	nCalls := seqCount(len(c19ArgNames), ma)
@@ -385,6 +386,10 @@ func (k c19) Run(c *mon.Ctx, workload string, i int64) {
 
 	if workload == "typed-getters" {
 		k.typedGetter(c, i)
+		return
+	}
+	if workload == "nested-calls" {
+		k.nested(c)
 		return
 	}
 	nCalls := seqCount(len(c19ArgNames), ma)
